@@ -99,18 +99,18 @@ Theorem flat_loop_is_single_pass fields st fs n n' :
   loop1 _ _ pfv skip (flat_readers fields) n' st fs.
 Proof.
   intros Hnd Hval Hn Hn'. rewrite loop_is_abstract.
-  apply loop_equiv; try assumption.
+  apply (loop_equiv _ _ pfv blen skip (flat_readers fields) (fun _ => True)); try assumption; try exact I; try (intros; exact I).
   - (* match_valid *)
-    intros r st0 Hr Hm. unfold flat_readers in Hr. apply in_map_iff in Hr. destruct Hr as [f [<- Hf]].
+    intros r st0 Hr _ Hm. unfold flat_readers in Hr. apply in_map_iff in Hr. destruct Hr as [f [<- Hf]].
     rewrite Forall_forall in Hval. exact (scalar_reader_valid _ _ _ st0 (Hval f Hf) Hm).
   - (* nomatch_id *)
-    intros r st0 t0 Hr Hm. unfold flat_readers in Hr. apply in_map_iff in Hr. destruct Hr as [f [<- Hf]].
+    intros r st0 t0 Hr _ Hm. unfold flat_readers in Hr. apply in_map_iff in Hr. destruct Hr as [f [<- Hf]].
     apply scalar_reader_nomatch. exact Hm.
   - (* match_progress *)
-    intros r st0 t0 Hr Hm. unfold flat_readers in Hr. apply in_map_iff in Hr. destruct Hr as [f [<- Hf]].
+    intros r st0 t0 Hr _ Hm. unfold flat_readers in Hr. apply in_map_iff in Hr. destruct Hr as [f [<- Hf]].
     apply scalar_reader_progress. exact Hm.
   - (* disjoint *)
-    intros i j ri rj st0 Hi Hj Hmi Hmj. unfold flat_readers in Hi, Hj.
+    intros i j ri rj st0 _ Hi Hj Hmi Hmj. unfold flat_readers in Hi, Hj.
     rewrite nth_error_map in Hi, Hj.
     destruct (nth_error fields i) as [fi|] eqn:Ei; [|discriminate Hi].
     destruct (nth_error fields j) as [fj|] eqn:Ej; [|discriminate Hj].
@@ -121,5 +121,5 @@ Proof.
     apply (proj1 (NoDup_nth_error _) Hnd); [|exact E].
     apply nth_error_Some. rewrite nth_error_map, Ei. discriminate.
   - (* skip_progress *)
-    exact skip_progress.
+    intros st0 _. apply skip_progress.
 Qed.
